@@ -8,11 +8,15 @@ units' completion paths (amd/emu/computeunit.go, amd/timing/cu/scheduler.go).
                                `git -C /repo worktree add --detach /tmp/wt-c09 HEAD`),
                                run `VERIF_REPO=<wt> bin/vcheck C09 quick`, print exit
                                code + new keys, restore the file.
-Environment: C09_WT=<worktree>, C09_ENV="C09_ONLY_REAL=1" (extra env for the run).
+Not in the list because it is an equivalent mutant: an emulation CU that stops
+taking MapWGReqs while three groups are queued is ticked again when the link
+takes its completion message (NotifyPortFree), so everything still completes.
+Environment: C09_WT=<worktree>, C09_PROP=C14 (run against C14 instead), C09_ENV="C09_ONLY_REAL=1" (extra env for the run).
 """
 import os, subprocess, sys, time, re
 
 WT = os.environ.get("C09_WT", "/tmp/wt-c09")
+PROP = os.environ.get("C09_PROP", "C09")  # C14: run the emulation-CU mutants against w_c14's emu-link layer
 EMU = "amd/emu/computeunit.go"
 SCH = "amd/timing/cu/scheduler.go"
 
@@ -89,9 +93,9 @@ def main():
         p, orig = apply(n)
         try:
             t0 = time.time()
-            r = subprocess.run(["/verif/bin/vcheck", "C09", "quick"], env=env, capture_output=True, text=True, cwd="/verif")
+            r = subprocess.run(["/verif/bin/vcheck", PROP, "quick"], env=env, capture_output=True, text=True, cwd="/verif")
             out = r.stdout + r.stderr
-            keys = sorted(set(re.findall(r"key=(C09\|\S+)", out)))
+            keys = sorted(set(re.findall(r"key=(" + PROP + r"\|\S+)", out)))
             if r.returncode == 2:
                 keys.append("(" + "; ".join(l for l in out.splitlines() if "inconclusive" in l or "build failed" in l or "error" in l.lower())[:300] + ")")
             print(f"{n}: exit={r.returncode} wall={time.time()-t0:.0f}s new: {' '.join(keys)}", flush=True)
